@@ -15,6 +15,7 @@ package main
 
 import (
 	"context"
+	"encoding/json"
 	"errors"
 	"fmt"
 	"math"
@@ -31,6 +32,8 @@ import (
 	"time"
 
 	"github.com/go-logr/logr"
+	"github.com/hashicorp/go-cleanhttp"
+	"golang.org/x/oauth2"
 
 	"github.com/ARM-software/golang-utils/utils/commonerrors"
 	httpu "github.com/ARM-software/golang-utils/utils/http"
@@ -207,6 +210,16 @@ type clientSc struct {
 	MaxMs      int64  `json:"max_ms"`
 	RetryAfter string `json:"retry_after"`
 	RADisabled bool   `json:"retry_after_disabled"`
+	// Ctor names the public constructor of utils/http the client is built with ("" = NewConfigurableRetryableClient);
+	// Variant says where the policy of this scenario is put: cfg (client-level configuration) | request (request-level
+	// RequestConfiguration.Retries, the client-level configuration holding ANOTHER policy that must not win) |
+	// request-empty (client-level, with an empty request-level policy) | request-nil | default (constructor without
+	// configuration: the scenario's policy is the library's default)
+	Ctor    string `json:"ctor,omitempty"`
+	Variant string `json:"variant,omitempty"`
+	Custom  bool   `json:"custom_http_client,omitempty"`
+	Auth    bool   `json:"authorisation_enforced,omitempty"`
+	Inspect bool   `json:"inspect_only,omitempty"` // no request: the underlying retryablehttp client is inspected
 }
 
 type scenario struct {
@@ -711,7 +724,18 @@ var errRetriable = errors.New("harness: retriable")
 // errShapes: what an attempt's error looks like when it is NOT a context error.  Whatever the shape, the caller must
 // receive this very error when it is the last one and the context is alive.
 var errShapes = []string{"plain", "common-timeout", "common-cancelled", "common-notfound", "timeout-method", "path-deadline", "syscall-eagain",
-	"path-etimedout", "net-op", "joined-deadline", "wrapped-timeout"}
+	"path-etimedout", "net-op", "joined-deadline", "wrapped-timeout",
+	// related to a retriable error by their TEXT only (errors.Is says no): starts with / equals / contains the text of an
+	// error on RetryOnError's list; sentinel kinds whose text extends that of a listed one
+	"text-prefix", "text-equal", "text-contains", "common-invalid-destination", "common-no-logger-source", "unknown-flag",
+	// listed (retriable by errors.Is) although the text does not start with the listed error's: always scripted as retriable
+	"wrapped-invalid"}
+
+// the errors RetryOnError is told to retry on (besides the per-attempt marker's own sentinel)
+var retriableList = []error{errRetriable, commonerrors.ErrInvalid, commonerrors.ErrNoLogger, commonerrors.ErrUnknown}
+
+// alwaysRetriable: shapes that are on the list by errors.Is
+func alwaysRetriable(kind string) bool { return kind == "wrapped-invalid" }
 
 func shapeCode(kind string) int64 {
 	for i, s := range errShapes {
@@ -734,9 +758,13 @@ type scriptErr struct {
 	retriable bool
 	timeout   bool    // Timeout() and Temporary(), like a net.Error
 	inner     []error // what the error wraps
+	text      string  // Error(), when the shape prescribes it
 }
 
 func (e *scriptErr) Error() string {
+	if e.text != "" {
+		return e.text
+	}
 	return fmt.Sprintf("harness: attempt %d failed (%s)", e.id, e.kind)
 }
 func (e *scriptErr) Unwrap() []error { return e.inner }
@@ -763,6 +791,20 @@ func mkErr(id int, kind string, retriable bool) error {
 		se.inner = []error{commonerrors.ErrNotFound}
 	case "timeout-method":
 		se.timeout = true
+	case "text-prefix":
+		se.text = fmt.Sprintf("%s, or so it reads (attempt %d)", errRetriable.Error(), id)
+	case "text-equal":
+		se.text = errRetriable.Error()
+	case "text-contains":
+		se.text = fmt.Sprintf("attempt %d: %s", id, errRetriable.Error())
+	case "common-invalid-destination": // ErrInvalid is listed, ErrInvalidDestination is not
+		se.inner, se.text = []error{commonerrors.ErrInvalidDestination}, fmt.Sprintf("%s (attempt %d)", commonerrors.ErrInvalidDestination.Error(), id)
+	case "common-no-logger-source": // ErrNoLogger is listed
+		se.inner, se.text = []error{commonerrors.ErrNoLoggerSource}, fmt.Sprintf("%s (attempt %d)", commonerrors.ErrNoLoggerSource.Error(), id)
+	case "unknown-flag": // ErrUnknown is listed
+		se.text = fmt.Sprintf("unknown flag --attempt-%d", id)
+	case "wrapped-invalid":
+		se.inner, se.text = []error{commonerrors.ErrInvalid}, fmt.Sprintf("attempt %d: bad value: %s", id, commonerrors.ErrInvalid.Error())
 	case "path-deadline": // an expired i/o deadline
 		return &os.PathError{Op: "read", Path: markerString(id, retriable), Err: os.ErrDeadlineExceeded}
 	case "syscall-eagain":
@@ -870,8 +912,12 @@ func execRetry(sc *retrySc) (o retryObs) {
 	}
 	resCh := make(chan error, 1)
 	go func() {
-		if sc.API == "onerror" {
-			resCh <- retry.RetryOnError(ctx, logr.Discard(), pol, fn, "harness", errRetriable)
+		switch sc.API {
+		case "onerror":
+			resCh <- retry.RetryOnError(ctx, logr.Discard(), pol, fn, "harness", retriableList...)
+			return
+		case "http-onerror": // the alias in utils/http
+			resCh <- httpu.RetryOnError(ctx, logr.Discard(), pol, fn, "harness", retriableList...)
 			return
 		}
 		resCh <- retry.RetryIf(ctx, logr.Discard(), pol, fn, "harness", func(err error) bool {
@@ -1079,7 +1125,7 @@ func coqRetry(sc *retrySc, o retryObs) string {
 }
 
 func genRetry(r *h.Run) retrySc {
-	sc := retrySc{API: []string{"if", "onerror"}[r.Rng.Intn(2)], Enabled: r.Rng.Intn(8) > 0, RetryMax: 1 + r.Rng.Intn(8), Delay: "fixed",
+	sc := retrySc{API: []string{"if", "onerror", "if", "http-onerror"}[r.Rng.Intn(4)], Enabled: r.Rng.Intn(8) > 0, RetryMax: 1 + r.Rng.Intn(8), Delay: "fixed",
 		CtxKind: []string{"cancel", "deadline"}[r.Rng.Intn(2)], Ctx0: r.Rng.Intn(20) == 0}
 	switch r.Rng.Intn(10) {
 	case 0:
@@ -1131,7 +1177,7 @@ func genRetry(r *h.Run) retrySc {
 				a.ErrKind = "deadline"
 			case x < 6:
 				a.ErrKind = errShapes[r.Rng.Intn(len(errShapes))]
-				if sc.API == "onerror" && markerless(a.ErrKind) && a.Out == "retry" {
+				if sc.API != "if" && markerless(a.ErrKind) && a.Out == "retry" {
 					a.ErrKind = "net-op"
 				}
 			}
@@ -1144,6 +1190,23 @@ func genRetry(r *h.Run) retrySc {
 		sc.Script = append(sc.Script, a)
 	}
 	return sc
+}
+
+// normaliseScript makes the script say what RetryOnError's list says by errors.Is: an error that IS a listed one is
+// retriable; an error whose marker lives in a string of a standard error type cannot be matched by the list.
+func normaliseScript(sc *retrySc) {
+	if sc.API == "if" {
+		return
+	}
+	for i := range sc.Script {
+		a := &sc.Script[i]
+		if a.Out == "fatal" && alwaysRetriable(a.ErrKind) {
+			a.Out = "retry"
+		}
+		if a.Out == "retry" && markerless(a.ErrKind) {
+			a.ErrKind = "net-op"
+		}
+	}
 }
 
 func retryKey(sc *retrySc) string {
@@ -1160,6 +1223,7 @@ func runRetries(r *h.Run, scs []retrySc, emit bool) {
 		go func(i int) {
 			defer wg.Done()
 			scs[i].CtxKind = ctxKindOf(&scs[i])
+			normaliseScript(&scs[i])
 			obs[i] = execRetry(&scs[i])
 			<-sem
 		}(i)
@@ -1313,15 +1377,16 @@ func retrySweeps(r *h.Run) {
 	// the shapes of the operation's own errors, context alive: last error after the budget is exhausted, non-retriable
 	// error, disabled policy — the caller must receive that very error (only the context's end becomes cancelled / timeout)
 	for si, shp := range errShapes {
-		for ai, api := range []string{"if", "onerror"} {
+		for ai, api := range []string{"if", "onerror", "http-onerror"} {
 			r1 := rt(shp)
-			if api == "onerror" && markerless(shp) {
+			if api != "if" && markerless(shp) {
 				r1 = rt("net-op")
 			}
 			ft := attemptSc{Out: "fatal", ErrKind: shp}
 			scs = append(scs,
 				retrySc{API: api, Enabled: true, RetryMax: 1 + (si+ai)%3, Delay: "fixed", CtxKind: "cancel", Script: []attemptSc{r1, r1, r1, r1}},
 				retrySc{API: api, Enabled: true, RetryMax: 4, Delay: "fixed", CtxKind: "deadline", Script: []attemptSc{rt("plain"), ft, rt("plain")}},
+				retrySc{API: api, Enabled: true, RetryMax: 8, Delay: "backoff", CtxKind: "cancel", Script: []attemptSc{ft, rt("plain"), rt("plain")}},
 				retrySc{API: api, Enabled: true, RetryMax: 3, Delay: "backoff", Flavor: "timeout-cause", Cause: "custom", TimeoutMs: 60000, Script: []attemptSc{r1, ft}},
 				retrySc{API: api, Enabled: false, RetryMax: 3, Delay: "fixed", CtxKind: "cancel", Script: []attemptSc{ft}},
 			)
@@ -1358,14 +1423,240 @@ func retrySweeps(r *h.Run) {
 // ------------------------------------------------------------------------------------------------
 // the retryable HTTP client
 
+func (sc *clientSc) policy() httpu.RetryPolicyConfiguration {
+	return httpu.RetryPolicyConfiguration{Enabled: true, RetryMax: sc.RetryMax, RetryAfterDisabled: sc.RADisabled, RetryWaitMin: time.Duration(sc.MinMs) * time.Millisecond,
+		RetryWaitMax: time.Duration(sc.MaxMs) * time.Millisecond, BackOffEnabled: sc.Kind != "basic", LinearBackOffEnabled: sc.Kind == "linear"}
+}
+
+// otherPolicy is a policy that differs from the scenario's in every respect the oracle can see
+func (sc *clientSc) otherPolicy() httpu.RetryPolicyConfiguration {
+	return httpu.RetryPolicyConfiguration{Enabled: true, RetryMax: sc.RetryMax + 2, RetryAfterDisabled: !sc.RADisabled, RetryWaitMin: time.Duration(sc.MinMs+7) * time.Millisecond,
+		RetryWaitMax: time.Duration(sc.MaxMs+11) * time.Millisecond, BackOffEnabled: sc.Kind == "basic", LinearBackOffEnabled: false}
+}
+
+type getter interface {
+	Get(url string) (*http.Response, error)
+	Close() error
+}
+
+// the two configurations a constructor may be handed, prepared according to the scenario's variant
+func (sc *clientSc) configs() (cfg *httpu.HTTPClientConfiguration, req *httpu.RequestConfiguration) {
+	cfg = httpu.DefaultHTTPClientConfiguration()
+	cfg.RetryPolicy = sc.policy()
+	switch sc.Variant {
+	case "request":
+		cfg.RetryPolicy = sc.otherPolicy()
+		req = &httpu.RequestConfiguration{UserAgent: "verif-c14", Retries: sc.policy()}
+	case "request-empty":
+		req = &httpu.RequestConfiguration{UserAgent: "verif-c14"}
+	case "request-nil":
+	default:
+		req = &httpu.RequestConfiguration{UserAgent: "verif-c14"}
+	}
+	if req != nil && sc.Auth {
+		req.Authorisation = httpu.Auth{Enforced: true, Scheme: "Bearer", AccessToken: "verif"}
+	}
+	return
+}
+
+func (sc *clientSc) httpClient() *http.Client {
+	if sc.Custom {
+		return &http.Client{Transport: &http.Transport{}}
+	}
+	return nil
+}
+
+type ctorDriver struct {
+	sig       string
+	retryable bool
+	variants  []string // where a policy can be put
+	build     func(sc *clientSc) getter
+}
+
+const (
+	tCfg    = "cfg *HTTPClientConfiguration"
+	tReq    = "requestCfg *RequestConfiguration"
+	tLogger = "logger github.com/go-logr/logr.Logger"
+	tClient = "client *net/http.Client"
+	tTok    = "t *golang.org/x/oauth2.Token"
+)
+
+func fsig(ret string, ps ...string) string {
+	return "func(" + strings.Join(ps, ", ") + ") " + ret
+}
+
+func orDefault(c *http.Client) *http.Client {
+	if c == nil {
+		return cleanhttp.DefaultPooledClient()
+	}
+	return c
+}
+
+// every public client constructor of utils/http (the list is checked against the one the translator extracts from the source)
+var ctorDrivers = map[string]ctorDriver{
+	"NewConfigurableRetryableClient": {fsig("IRetryableClient", tCfg), true, []string{"cfg"}, func(sc *clientSc) getter {
+		c, _ := sc.configs()
+		return httpu.NewConfigurableRetryableClient(c)
+	}},
+	"NewConfigurableRetryableClientFromClient": {fsig("IRetryableClient", tCfg, tClient), true, []string{"cfg"}, func(sc *clientSc) getter {
+		c, _ := sc.configs()
+		return httpu.NewConfigurableRetryableClientFromClient(c, orDefault(sc.httpClient()))
+	}},
+	"NewConfigurableRetryableClientWithLogger": {fsig("IRetryableClient", tCfg, tLogger), true, []string{"cfg"}, func(sc *clientSc) getter {
+		c, _ := sc.configs()
+		return httpu.NewConfigurableRetryableClientWithLogger(c, logr.Discard())
+	}},
+	"NewConfigurableRetryableClientWithLoggerFromClient": {fsig("IRetryableClient", tCfg, tLogger, tClient), true, []string{"cfg"}, func(sc *clientSc) getter {
+		c, _ := sc.configs()
+		return httpu.NewConfigurableRetryableClientWithLoggerFromClient(c, logr.Discard(), orDefault(sc.httpClient()))
+	}},
+	"NewConfigurableRetryableClientWithLoggerAndCustomClient": {fsig("IRetryableClient", tCfg, tReq, tLogger, tClient), true, []string{"cfg", "request", "request-empty", "request-nil"}, func(sc *clientSc) getter {
+		c, q := sc.configs()
+		return httpu.NewConfigurableRetryableClientWithLoggerAndCustomClient(c, q, logr.Discard(), sc.httpClient())
+	}},
+	"NewRetryableClientWithLogger": {fsig("IRetryableClient", tCfg, tReq, tLogger), true, []string{"cfg", "request", "request-empty", "request-nil"}, func(sc *clientSc) getter {
+		c, q := sc.configs()
+		return httpu.NewRetryableClientWithLogger(c, q, logr.Discard())
+	}},
+	"NewRetryableClientWithAuthorisation": {fsig("IRetryableClient", tCfg, tReq), true, []string{"cfg", "request", "request-empty", "request-nil"}, func(sc *clientSc) getter {
+		c, q := sc.configs()
+		return httpu.NewRetryableClientWithAuthorisation(c, q)
+	}},
+	"NewClientWithAuthorisation": {fsig("IRetryableClient", tReq), true, []string{"request", "default"}, func(sc *clientSc) getter {
+		_, q := sc.configs()
+		if sc.Variant == "default" {
+			q.Retries = httpu.RetryPolicyConfiguration{}
+		}
+		return httpu.NewClientWithAuthorisation(q)
+	}},
+	"NewConfigurableRetryableOauthClient": {fsig("IRetryableClient", tCfg, "token string"), true, []string{"cfg"}, func(sc *clientSc) getter {
+		c, _ := sc.configs()
+		return httpu.NewConfigurableRetryableOauthClient(c, "verif")
+	}},
+	"NewConfigurableRetryableOauthClientWithLogger": {fsig("IRetryableClient", tCfg, tLogger, "token string"), true, []string{"cfg"}, func(sc *clientSc) getter {
+		c, _ := sc.configs()
+		return httpu.NewConfigurableRetryableOauthClientWithLogger(c, logr.Discard(), "verif")
+	}},
+	"NewConfigurableRetryableOauthClientWithLoggerAndCustomClient": {fsig("IRetryableClient", tCfg, tClient, tLogger, "token string"), true, []string{"cfg"}, func(sc *clientSc) getter {
+		c, _ := sc.configs()
+		return httpu.NewConfigurableRetryableOauthClientWithLoggerAndCustomClient(c, sc.httpClient(), logr.Discard(), "verif")
+	}},
+	"NewConfigurableRetryableOauthClientWithToken": {fsig("IRetryableClient", tCfg, tTok), true, []string{"cfg"}, func(sc *clientSc) getter {
+		c, _ := sc.configs()
+		return httpu.NewConfigurableRetryableOauthClientWithToken(c, &oauth2.Token{AccessToken: "verif"})
+	}},
+	"NewConfigurableRetryableOauthClientWithTokenAndLogger": {fsig("IRetryableClient", tCfg, tLogger, tTok), true, []string{"cfg"}, func(sc *clientSc) getter {
+		c, _ := sc.configs()
+		return httpu.NewConfigurableRetryableOauthClientWithTokenAndLogger(c, logr.Discard(), &oauth2.Token{AccessToken: "verif"})
+	}},
+	"NewPooledClient": {fsig("IClient", tCfg), false, []string{"cfg"}, func(sc *clientSc) getter {
+		c, _ := sc.configs()
+		return httpu.NewPooledClient(c)
+	}},
+	"NewRetryableClient":      {fsig("IRetryableClient"), true, []string{"default"}, func(sc *clientSc) getter { return httpu.NewRetryableClient() }},
+	"NewRetryableOauthClient": {fsig("IRetryableClient", "token string"), true, []string{"default"}, func(sc *clientSc) getter { return httpu.NewRetryableOauthClient("verif") }},
+	"NewRetryableOauthClientWithToken": {fsig("IRetryableClient", tTok), true, []string{"default"}, func(sc *clientSc) getter {
+		return httpu.NewRetryableOauthClientWithToken(&oauth2.Token{AccessToken: "verif"})
+	}},
+}
+
+func (sc *clientSc) driver() ctorDriver {
+	if sc.Ctor == "" {
+		return ctorDrivers["NewConfigurableRetryableClient"]
+	}
+	return ctorDrivers[sc.Ctor]
+}
+
+// effective RetryMax: a client that is not a retrying one sends one request whatever the policy says
+func (sc *clientSc) effRetryMax() int {
+	if d := sc.driver(); d.build != nil && !d.retryable {
+		return 0
+	}
+	return sc.RetryMax
+}
+
 type clientObs struct {
+	// inspection of the underlying retryablehttp client
+	UMax         int     `json:"underlying_retry_max,omitempty"`
+	UMinNs       int64   `json:"underlying_wait_min_ns,omitempty"`
+	UMaxNs       int64   `json:"underlying_wait_max_ns,omitempty"`
+	Waits        []int64 `json:"backoff_samples_ns,omitempty"`
+	Ref          []int64 `json:"reference_samples_ns,omitempty"`
+	NoUnderlying bool    `json:"no_underlying_client,omitempty"`
+
 	Requests int     `json:"requests"`
 	GapsNs   []int64 `json:"gaps_ns"`
 	Err      bool    `json:"error"`
 	Status   int     `json:"final_status"`
 }
 
+var inspectSamples = []struct {
+	n      int
+	status int
+	header string
+}{{0, 0, ""}, {1, 0, ""}, {2, 500, ""}, {3, 429, "7"}, {1, 503, "9223372037"}, {4, 200, "7"}, {1, 429, "abc"}}
+
+func sampleResp(status int, header string) *http.Response {
+	if status == 0 {
+		return nil
+	}
+	r := &http.Response{StatusCode: status, Header: http.Header{}}
+	if header != "" {
+		r.Header.Set("Retry-After", header)
+	}
+	return r
+}
+
+// inspectClient: the retryablehttp client a constructor built must carry the scenario's policy
+func inspectClient(sc *clientSc) (o clientObs) {
+	cl := sc.driver().build(sc)
+	defer func() { _ = cl.Close() }()
+	rc, ok := cl.(httpu.IRetryableClient)
+	if !ok || rc.UnderlyingClient() == nil {
+		o.NoUnderlying = true
+		return
+	}
+	uc := rc.UnderlyingClient()
+	o.UMax, o.UMinNs, o.UMaxNs = uc.RetryMax, int64(uc.RetryWaitMin), int64(uc.RetryWaitMax)
+	pol := sc.policy()
+	ref := httpu.BackOffPolicyFactory(&pol)
+	for _, sm := range inspectSamples {
+		if sc.Variant == "default" && sc.Ctor == "NewRetryableClient" && sm.header != "" {
+			continue // retryablehttp's own default back-off reads the header in its own way
+		}
+		o.Waits = append(o.Waits, int64(uc.Backoff(uc.RetryWaitMin, uc.RetryWaitMax, sm.n, sampleResp(sm.status, sm.header))))
+		o.Ref = append(o.Ref, int64(ref.Apply(pol.RetryWaitMin, pol.RetryWaitMax, sm.n, sampleResp(sm.status, sm.header))))
+	}
+	return
+}
+
+func judgeInspection(sc *clientSc, o clientObs) (string, string) {
+	if o.NoUnderlying {
+		if sc.driver().retryable {
+			return "client-policy-not-applied:no-retryablehttp-client", "the constructor did not return a retryable client"
+		}
+		return "", ""
+	}
+	pol := sc.policy()
+	where := fmt.Sprintf("%s (policy given through: %s)", sc.Ctor, sc.Variant)
+	switch {
+	case o.UMax != pol.RetryMax:
+		return "client-policy-not-applied:retry-max", fmt.Sprintf("%s: the client retries %d times, the policy it was built with says %d", where, o.UMax, pol.RetryMax)
+	case o.UMinNs != int64(pol.RetryWaitMin) || o.UMaxNs != int64(pol.RetryWaitMax):
+		return "client-policy-not-applied:waits", fmt.Sprintf("%s: the client waits between %v and %v, the policy it was built with says %v and %v", where, time.Duration(o.UMinNs), time.Duration(o.UMaxNs), pol.RetryWaitMin, pol.RetryWaitMax)
+	}
+	for i := range o.Waits {
+		if o.Waits[i] != o.Ref[i] {
+			return "client-policy-not-applied:backoff", fmt.Sprintf("%s: the client's back-off gives %v where the policy it was built with gives %v (sample %d: kind %s, Retry-After disabled=%v)", where, time.Duration(o.Waits[i]), time.Duration(o.Ref[i]), i, sc.Kind, sc.RADisabled)
+		}
+	}
+	return "", ""
+}
+
 func execClient(sc *clientSc) (o clientObs) {
+	if sc.Inspect {
+		return inspectClient(sc)
+	}
 	var mu sync.Mutex
 	var arrivals []time.Time
 	srv := httptest.NewServer(http.HandlerFunc(func(w http.ResponseWriter, req *http.Request) {
@@ -1383,10 +1674,7 @@ func execClient(sc *clientSc) (o clientObs) {
 		w.WriteHeader(http.StatusOK)
 	}))
 	defer srv.Close()
-	cfg := httpu.DefaultHTTPClientConfiguration()
-	cfg.RetryPolicy = httpu.RetryPolicyConfiguration{Enabled: true, RetryMax: sc.RetryMax, RetryAfterDisabled: sc.RADisabled, RetryWaitMin: time.Duration(sc.MinMs) * time.Millisecond,
-		RetryWaitMax: time.Duration(sc.MaxMs) * time.Millisecond, BackOffEnabled: sc.Kind != "basic", LinearBackOffEnabled: sc.Kind == "linear"}
-	cl := httpu.NewConfigurableRetryableClient(cfg)
+	cl := sc.driver().build(sc)
 	defer func() { _ = cl.Close() }()
 	resp, err := cl.Get(srv.URL)
 	if resp != nil {
@@ -1404,7 +1692,13 @@ func execClient(sc *clientSc) (o clientObs) {
 }
 
 // what the oracle asks of one client run; returns a signature or ""
-func judgeClient(sc *clientSc, o clientObs) (string, string) {
+func judgeClient(sc0 *clientSc, o clientObs) (string, string) {
+	if sc0.Inspect {
+		return judgeInspection(sc0, o)
+	}
+	eff := *sc0
+	eff.RetryMax = sc0.effRetryMax()
+	sc := &eff
 	if o.Requests < 1 {
 		return "client-no-request", "no request reached the server"
 	}
@@ -1480,10 +1774,14 @@ func runClients(r *h.Run, scs []clientSc, emit bool) {
 		if sig != "" {
 			r.Fail(sig, what, scenario{Kind: "client", Client: &sc})
 		}
-		if emit {
-			r.Case(fmt.Sprintf("(CClient %d %d %d)", sc.RetryMax, sc.Fails, obs[i].Requests), scenario{Kind: "client", Client: &sc})
+		if emit && !sc.Inspect {
+			r.Case(fmt.Sprintf("(CClient %d %d %d)", sc.effRetryMax(), sc.Fails, obs[i].Requests), scenario{Kind: "client", Client: &sc})
 		}
 		r.Count("client:policy=" + sc.Kind)
+		if sc.Ctor != "" {
+			r.Count("client:constructor=" + sc.Ctor)
+			r.Count("client:policy-given-through=" + sc.Variant)
+		}
 		if sc.Fails > 0 && sc.RetryMax > 0 {
 			r.Distinct(fmt.Sprintf("c|%v", sc))
 		}
@@ -1507,6 +1805,83 @@ func clientSweeps(r *h.Run) {
 	scs = append(scs, clientSc{Kind: "exponential", RetryMax: 3, Fails: 3, Status: 500, MinMs: 40, MaxMs: 100, RADisabled: true})
 	scs = append(scs, clientSc{Kind: "linear", RetryMax: 3, Fails: 3, Status: 503, MinMs: 40, MaxMs: 40})
 	scs = append(scs, clientSc{Kind: "basic", RetryMax: 3, Fails: 2, Status: 503, MinMs: 60, MaxMs: 5000, RADisabled: true})
+	runClients(r, scs, true)
+	constructorSweeps(r)
+}
+
+type ctorEntry struct {
+	Name          string `json:"name"`
+	Sig           string `json:"sig"`
+	AcceptsConfig bool   `json:"accepts_config"`
+	Retryable     bool   `json:"retryable"`
+}
+
+// constructorSweeps drives a distinct policy END TO END through every public client constructor of utils/http: the list
+// comes from the source (coq/C14/constructors.json, written by the translator on every run); a constructor without a
+// driver, or whose signature is not the one the driver was written for, is reported (fail closed).
+func constructorSweeps(r *h.Run) {
+	root := os.Getenv("VERIF_ROOT")
+	if root == "" {
+		root = "/verif"
+	}
+	var list []ctorEntry
+	bs, err := os.ReadFile(root + "/coq/C14/constructors.json")
+	if err == nil {
+		err = json.Unmarshal(bs, &list)
+	}
+	if err != nil || len(list) == 0 {
+		r.Fail("client-constructor-list-missing", fmt.Sprintf("the list of client constructors extracted from the source cannot be read (%v)", err), nil)
+		return
+	}
+	var scs []clientSc
+	idx := 0
+	for _, e := range list {
+		d, ok := ctorDrivers[e.Name]
+		if !ok || d.sig != e.Sig || d.retryable != e.Retryable {
+			r.Fail("client-constructor-not-driven:"+e.Name, fmt.Sprintf("utils/http has the public client constructor %s %s, which this check does not drive (driver signature: %q)", e.Name, e.Sig, d.sig), e)
+			continue
+		}
+		for _, v := range d.variants {
+			for rep := 0; rep < 2; rep++ {
+				idx++
+				kind := []string{"basic", "linear", "exponential"}[idx%3]
+				base := clientSc{Ctor: e.Name, Variant: v, Kind: kind, RetryMax: 1 + idx%3, MinMs: int64(1 + idx%2), MaxMs: int64(1 + idx%2), RADisabled: idx%2 == 0, Custom: rep == 1, Auth: idx%4 < 2}
+				if kind == "exponential" {
+					base.MaxMs = base.MinMs + 2
+				}
+				if v == "default" { // the library's default: exponential, 4 retries, 1s..30s, Retry-After honoured
+					base.Kind, base.RetryMax, base.MinMs, base.MaxMs, base.RADisabled = "exponential", 4, 1000, 30000, false
+					ins := base
+					ins.Inspect = true
+					ok := base
+					ok.Fails, ok.Status = 0, 503
+					scs = append(scs, ins, ok)
+					continue
+				}
+				ins := base
+				ins.Inspect = true
+				// always failing server: the number of requests is that of THIS policy
+				cnt := base
+				cnt.Status, cnt.Fails = []int{503, 429, 500}[idx%3], base.RetryMax+4
+				scs = append(scs, ins, cnt)
+				if rep == 0 {
+					// 429 with Retry-After: 1, once: honoured or ignored as THIS policy says
+					ra := base
+					ra.Kind, ra.Status, ra.Fails, ra.RetryAfter, ra.MaxMs = "basic", 429, 1, "1", ra.MinMs
+					scs = append(scs, ra)
+				}
+			}
+		}
+	}
+	for name := range ctorDrivers {
+		found := false
+		for _, e := range list {
+			found = found || e.Name == name
+		}
+		if !found {
+			r.Note("driver for " + name + ", which is no longer a public client constructor of utils/http")
+		}
+	}
 	runClients(r, scs, true)
 }
 
